@@ -75,8 +75,10 @@ def replace_phrases(txt, pos, lines):
                 break
             t += s + re.escape(lin[i])
                     # protect e.g. '.' and '$'
-            s = r'(?:[ \t]*\n[ \t]*|[ \t]+)'
-                    # at least one space character, but stay in paragraph
+            s = r'(?:[^\S\n]*\n[^\S\n]*|[^\S\n]+)'
+                    # at least one space character, but stay in paragraph;
+                    # [^\S\n] is any space character except line break, e.g.,
+                    # also the non-breaking space from '~'
         if not t:
             continue
         if t[0].isalpha():
